@@ -115,7 +115,13 @@ def make(pos, lk, rk, op):
         if r is None:
             ok = out.kind == "diag"                      # division by zero must be rejected
         elif out.kind == "diag":
-            width_ok = (0 <= r) and (r <= (255 if kind in ("imm8", "fcb") else 65535))
+            lim = 255 if kind in ("imm8", "fcb") else 65535
+            width_ok = (0 <= r) and (r <= lim)
+            if "lbla" in (lk, rk) and op in (None, "+"):
+                # the statement was rejected, so the address of the label behind it is known only up to the
+                # statement's size (2..5 bytes): rejected rightly if any of those makes the result unrepresentable
+                for extra in (2, 3, 4, 5):
+                    width_ok = width_ok and (r + extra <= lim)
             ok = not width_ok                            # a representable result must be accepted
         else:
             ok = encodes(kind, m, b, r)
